@@ -178,8 +178,8 @@ theorem pair_hook_iff (h oh s os : Option Bytes) (h1 : NoNulO h) (h2 : NoNulO oh
 def nodeKey (n : Node) : Bytes × Nat := (n.base.name, n.kind)
 
 /-- objects, one direction: when the object's hook is *not* due (`modified = false`), the
-    membership (list of child keys) is unchanged.  Hence a membership change always
-    notifies.  (The converse — no notification without a membership change — needs the
+    membership (list of child keys, each with its spelling) is unchanged.  Hence a
+    membership change — an entry respelled in place included — always notifies.  (The converse — no notification without a membership change — needs the
     sortedness of both child lists and is covered by the correspondence runs only.) -/
 theorem walk_unmodified_keys (V : Variant) (h9 : V.f9 = true) (h14 : V.f14 = true) (sv : Bool) : ∀ fuel pfx ts ps h0 e rs e',
     walk V sv fuel pfx ts (toLiveList V ps h0).1 e = .ok (rs, false, e') → rs.map nodeKey = ts.map nodeKey := by
@@ -235,7 +235,8 @@ theorem walk_unmodified_keys (V : Variant) (h9 : V.f9 = true) (h14 : V.f14 = tru
             obtain ⟨⟨r, e1⟩, hr, h2⟩ := bind_ok h
             obtain ⟨⟨rest, m1, e2⟩, hw, hrest⟩ := bind_ok h2
             simp at hrest
-            obtain ⟨hrs, rfl, _⟩ := hrest
+            obtain ⟨hrs, ⟨rfl, hnm⟩, _⟩ := hrest
+            rw [← hnm, Node.rename_self] at hr
             have hkind : p.kind = t.kind := by
               rw [← (toLive_name_kind V p h0).2]; exact (keyCmp_zero_kind heq).symm
             obtain ⟨t', rfl, _, hn', hk'⟩ := aux.1 _ _ _ _ _ _ _ hkind hr
